@@ -58,6 +58,12 @@ CHECKS = {
    note="fresh equivalent = declarations+edits replayed without earlier solves; objects removed from the model by an edit are "
         "outside the statement; thresholds DESIGN 2.8",
    tech="runtime monitor of per-solve wrapper-boundary data + fresh-process reference model + accessor oracles"),
+ "C11": dict(cat="translation_validation", ref="DESIGN 3/C11, 2.6",
+   text="Every generated program is solved through both back-ends (MOSEK through a recording/validating/solving stand-in of the "
+        "Optimizer API); compared: optimal value, C01 certificate and C02 primal oracles on the MOSEK side over the same sent "
+        "list, and the Task rows/LMI couplings/objective reconstructed from the recorded calls against the declared functionals.",
+   note="MOSEK is modelled by pv/standins/mosek (self-checked against the manual's dual equations), not run; thresholds DESIGN 2.8",
+   tech="translation validation of recorded solver-API traces + differential run of two back-ends under certificate/primal oracles"),
 }
 NOT_YET = {}
 
